@@ -21,7 +21,6 @@ set_option linter.unusedVariables false
 set_option linter.unnecessarySeqFocus false
 namespace Bridge
 variable {α : Type} [Field α] [LinearOrder α] [IsStrictOrderedRing α]
-  [HasSqrt α] [HasExp α] [HasLog α] [HasSin α] [HasCos α] [HasAsin α] [HasRpow α] [HasPi α] [HasRound α] [HasFloor α]
 
 theorem lice_age (age days temp sdt : α) :
     (age + temp * sdt / 86400.0, days + 1.0 * (sdt / 86400.0)) = Gen.lice_age age days temp sdt := by
